@@ -200,7 +200,14 @@ def _native_pool(fi, cn, vi, f2, mt, ai):
     check_readback(fs, "f", conds, acts, mtype, lab, v, "original", alabel)
     fs.disablefilter("f")
     check_readback(fs, "f", conds, acts, mtype, lab, v, "disabled", alabel)
+    # edited while disabled: still reads back, still disabled, and again after enabling
+    if not fs.updatefilter("f", "f", conds, acts, mtype):
+        raise Violation("C19/updatefilter-while-disabled/refused", {"conditions": repr(conds)})
+    check_readback(fs, "f", conds, acts, mtype, lab, v, "updated-while-disabled", alabel)
+    if not fs.is_filter_disabled("f"):
+        raise Violation("C19/updatefilter-while-disabled/enabled-by-update", {"conditions": repr(conds), "text": str(fs)})
     fs.enablefilter("f")
+    check_readback(fs, "f", conds, acts, mtype, lab, v, "re-enabled", alabel)
     text = str(fs)
     p = Parser()
     try:
